@@ -39,7 +39,15 @@ pub fn event_budget(n_chars: usize) -> usize {
     8 * (n_chars + 4)
 }
 
-pub fn generate(run_seed: u64, corpus: &Corpus, sw: &Swarm) -> Case {
+pub fn generate(run_seed: u64, corpus: &Corpus, sw: &Swarm, i: u64, exhaustive: u64) -> Case {
+    if i < exhaustive {
+        return Case {
+            prop: "C10".into(),
+            gen: "X-exhaustive".into(),
+            text: crate::gen::nth_string(&crate::gen::C10_ALPHABET, i),
+            ..Case::default()
+        };
+    }
     let mut g = Gen::new(run_seed, corpus, sw);
     let (gname, text) = g.text();
     let mut r = SplitMix64::new(run_seed ^ 0x5151_5151);
@@ -55,12 +63,13 @@ pub fn generate(run_seed: u64, corpus: &Corpus, sw: &Swarm) -> Case {
         text,
         eof_at,
         extra_inputs,
+        keep_tags: r.chance(1, 8),
         ..Case::default()
     }
 }
 
 pub fn execute(case: &Case, record_seed: Option<u64>) -> Outcome {
-    let prep = Prepared::new(&case.text, case.eof_at);
+    let prep = Prepared::new(&case.text, case.eof_at, case.keep_tags);
     let n = prep.n_chars;
     let tape = match record_seed {
         Some(s) => Tape::record(s),
